@@ -33,15 +33,7 @@ fn state() -> &'static State {
 }
 
 fn decode(data: &[u8]) -> Input {
-    let words: Vec<u32> = data.chunks(4).map(|c| {
-        let mut b = [0u8; 4];
-        b[..c.len()].copy_from_slice(c);
-        u32::from_le_bytes(b)
-    }).collect();
-    // the first word splits the rest between tape a and tape b
-    let Some((first, rest)) = words.split_first() else { return Input { a: vec![], b: vec![] } };
-    let cut = ((u64::from(*first) * (rest.len() as u64 + 1)) >> 32) as usize;
-    Input { a: rest[..cut].to_vec(), b: rest[cut..].to_vec() }
+    vlab::engine::input_from_bytes(data)
 }
 
 fuzz_target!(|data: &[u8]| {
